@@ -14,7 +14,7 @@ from ..runner import Acc
 ID = 'C19'
 LEVEL = 'model_checking'
 RULE = ('programs (facts, rules with cut / if-then-else / negation, atoms with embedded newlines and with a # after a '
-        'newline, atoms containing every other line separator (bare CR, CR LF, VT, FF, FS/GS/RS, NEL, LS, PS), non-ASCII atoms, atoms with NUL and other control characters, lists and anonymous variables, empty and comment-only files, a syntax error, a '
+        'newline, atoms containing every other line separator (bare CR, CR LF, VT, FF, FS/GS/RS, NEL, LS, PS), non-ASCII atoms, atoms with NUL and other control characters, a 140 KiB source with two-byte characters at even and odd offsets, lists and anonymous variables, empty and comment-only files, a syntax error, a '
         'non-callable goal, a clause too large for Python, an unsupported term) x ALL 16 combinations of -d '
         '--debug-parser --debug-generator --debug-filename x {stdout, -o file that already exists with longer content} x {file argument, - with the text on '
         'standard input, the path /dev/stdin fed from a pipe (a source that is not a regular file)} x {one source, two sources, a second source that does not compile, a first source that does not compile followed by this one, a first source that stops in the middle of a clause followed by this one}, each run as a real '
@@ -45,10 +45,13 @@ PROGRAMS = [
                    "p(X) :- 'go\rdef'(X), X = 'cr\rafter'.\ngreet('hello\rdef injected_0():\r  yield False\rmakelist = variable\r#').\n", 'ok'),
     ('directives-discontiguous', ":- init(_, _).\np(_, a).\nq(_, X) :- p(_, X).\np(b, _) :- q(_, _).\n:- other(_).\nq(_, _).\nr([_|_], f(_)).\np(_, _) :- r(_, _).\n", 'ok'),
     ('control-characters', "c0('a\x00b', '\x01\x07\x1b', 'del\x7f').\nnul(X) :- c0('\x00', X, _), X \\= 'z\x00'.\n", 'ok'),
+    # a source of about 140 KiB in which two-byte characters sit at even AND at odd byte offsets, so that
+    # whatever block size a reader uses, some character straddles a block boundary
+    ('large-non-ascii', "first('\u00fc').\n% " + '\u00e9' * 35000 + "\nmiddle('\u00e4\u00f6').\n%  " + '\u00e9' * 35000 + "\nlast('Z\u00fcrich', '\u4e94').\n", 'ok'),
     ('open-ended', 'wet(X) :- rain(X),\n', 'syntax'),
     ('multiline-clause', "longer(\n  'first\nsecond',\n  X\n) :-\n  true,\n  X = 'x'.\n", 'ok'),
 ]
-QUICK = ['facts', 'newlines', 'unicode', 'syntax-error', 'control', 'linebreaks', 'too-large', 'directives-discontiguous', 'control-characters']
+QUICK = ['facts', 'newlines', 'unicode', 'syntax-error', 'control', 'linebreaks', 'too-large', 'directives-discontiguous', 'control-characters', 'large-non-ascii']
 FLAGS = ['-d', '--debug-parser', '--debug-generator', '--debug-filename']
 
 
@@ -92,6 +95,8 @@ def configurations(progs):
                     # as with shell process substitution); only with all debug flags off / all on
                     if inp == 'devstdin' and flags not in ((False,) * 4, (True,) * 4):
                         continue
+                    if name == 'large-non-ascii' and flags not in ((False,) * 4, (False, False, True, True)):
+                        continue    # (the parser trace of a big file is big: only flag sets without it)
                     for multi in ('one', 'two', 'second-fails', 'first-fails', 'first-open-ended'):
                         if multi == 'first-open-ended' and inp != 'file':
                             continue
